@@ -64,7 +64,7 @@ fn gen_outer(rng: &mut Rng, d: &Def) -> (String, &'static str) {
 }
 
 pub fn run(ctx: &mut Ctx) {
-    let total = ctx.n(800, 60_000);
+    let total = ctx.n(500, 30_000);
     for case in ctx.my_cases(total) {
         ctx.begin_case(case);
         let mut rng = ctx.rng(case);
@@ -97,7 +97,7 @@ pub fn run(ctx: &mut Ctx) {
                     let _ = s.exec(&dml);
                 }
             }
-            for _ in 0..3 {
+            for qi in 0..3 {
                 let (outer, okind) = gen_outer(&mut rng, &d);
                 let via_view = outer.clone();
                 let inlined = outer.replacen("FROM v", &format!("FROM ({}) AS v", d.aliased), 1);
@@ -144,6 +144,47 @@ pub fn run(ctx: &mut Ctx) {
                             ctx.violation(case, format!("{}-errors-but-inlined-works|{}", name, shape), json!({"sql": sql, "error": e, "inlined_sql": inlined, "inlined": show_rows(ri, 12), "history": hist()}));
                         }
                         _ => {}
+                    }
+                }
+                // chained CTEs: a later CTE reads an earlier one outside its own FROM clause (second
+                // operand of UNION ALL, scalar subquery in the select list); each form is compared
+                // with what the defining query itself gives
+                let hist_now = hist();
+                if qi != 0 {
+                    continue;
+                }
+                if let Ok(base) = s.query(&format!("SELECT COUNT(*) FROM ({}) AS v", d.aliased)) {
+                    let n = match base.first().and_then(|r| r.first()) {
+                        Some(crate::core::canon::Canon::Int(i)) => *i,
+                        _ => -1,
+                    };
+                    let chained = [
+                        (format!("WITH w{} AS ({}), w2 AS (SELECT p FROM w WHERE 1 = 0 UNION ALL SELECT p FROM w) SELECT COUNT(*) FROM w2", collist, d.sql), n, "chained-cte-union-operand"),
+                        (format!("WITH w{} AS ({}), w2 AS (SELECT p FROM w UNION ALL SELECT p FROM w) SELECT COUNT(*) FROM w2", collist, d.sql), 2 * n, "chained-cte-union-both"),
+                        (format!("WITH w{} AS ({}), w2 AS (SELECT (SELECT COUNT(*) FROM w) AS n FROM t1) SELECT MAX(n), MIN(n) FROM w2", collist, d.sql), n, "chained-cte-scalar-subquery"),
+                    ];
+                    for (sql, want, form) in chained.iter() {
+                        if n < 0 {
+                            break;
+                        }
+                        ctx.eval();
+                        match s.exec(sql) {
+                            Outcome::Rows(r) => {
+                                let got = r.first().and_then(|row| row.first()).cloned();
+                                let empty_t1 = *form == "chained-cte-scalar-subquery" && matches!(got, Some(crate::core::canon::Canon::Null));
+                                let ok = matches!(&got, Some(crate::core::canon::Canon::Int(i)) if *i == *want) || empty_t1;
+                                if !ok {
+                                    ctx.violation(case, format!("cte-differs-from-inlined:{}|{}", form, d.kind), json!({"sql": sql, "got": show_rows(&r, 4), "expected_count": want, "history": hist_now}));
+                                } else {
+                                    ctx.nontrivial(format!("{}|{}|rows{}", form, d.kind, (*want).min(3)));
+                                }
+                            }
+                            Outcome::Err(e) => {
+                                ctx.violation(case, format!("cte-errors-but-inlined-works|{}|{}", form, d.kind), json!({"sql": sql, "error": e, "history": hist_now}));
+                            }
+                            Outcome::Panic(p) => ctx.violation(case, format!("panic:{}:{}", form, crate::core::util::panic_class(&p)), json!({"sql": sql})),
+                            _ => {}
+                        }
                     }
                 }
                 let vv = via_view.clone();
